@@ -71,6 +71,7 @@ func vSeqs(alphabet []string, depth int) [][]string {
 
 type c10Posted struct {
 	sess string
+	line string // the complete line when it is not a channel message
 	text string
 	cmid uint64
 	died bool
@@ -98,7 +99,7 @@ func TestVerifC10(t *testing.T) {
 	sigs := map[string]*vViol{}
 	// S is a services link (PASS services=..., SERVER): its messages carry a prefix and are handled by the
 	// server-to-server command table, retries must be recognised all the same
-	alphabet := []string{"postA", "retryA", "postB", "retryB", "postS", "retryS", "deathA", "snapshot", "restart"}
+	alphabet := []string{"postA", "retryA", "pingA", "postB", "retryB", "postS", "retryS", "deathA", "snapshot", "restart"}
 	base := t.TempDir()
 	seqs := vSeqs(alphabet, depth)
 	if rp := os.Getenv("VERIF_REPLAY"); rp != "" {
@@ -166,13 +167,25 @@ func TestVerifC10(t *testing.T) {
 				}
 				last[who] = p
 				posted = append(posted, p)
+			case strings.HasPrefix(op, "ping"):
+				// a keep-alive line is a message like any other: it becomes the session's last message
+				p := &c10Posted{sess: who, text: fmt.Sprintf("ping-%s-%d", who, oi), cmid: next(), line: fmt.Sprintf("PING ping-%s-%d", who, oi)}
+				if r := n.post(sess[who], p.line, p.cmid); r.Code != 200 {
+					res.report(sigs, "C10", "POST refused", fmt.Sprintf("op %d of %v: %d %s", oi, seq, r.Code, r.Body), seq)
+				}
+				last[who] = p
+				posted = append(posted, p)
 			case strings.HasPrefix(op, "retry"):
 				p := last[who]
 				if p == nil {
 					continue
 				}
 				res.Retries++
-				r := n.post(sess[who], line(who, p.text), p.cmid)
+				data := line(who, p.text)
+				if p.line != "" {
+					data = p.line
+				}
+				r := n.post(sess[who], data, p.cmid)
 				if r.Code != 200 {
 					res.report(sigs, "C10", "retry not acknowledged", fmt.Sprintf("op %d of %v: retry of cmid %d answered %d %s", oi, seq, p.cmid, r.Code, r.Body), seq)
 				}
@@ -240,7 +253,7 @@ func TestVerifC10(t *testing.T) {
 				}
 				var want []string
 				for _, p := range posted {
-					if p.sess == w && !p.died {
+					if p.sess == w && !p.died && p.line == "" {
 						want = append(want, p.text)
 					}
 				}
